@@ -365,3 +365,19 @@ Fixpoint as_string_loop (fuel : nat) (pj : pjson) (it : iter) (acc : list bytes)
   end.
 Definition as_string (pj : pjson) (a : cont) : outcome (list bytes) :=
   as_string_loop (cont_fuel a) pj (cont_iter a) [].
+
+(* ---- Object.Parse ---------------------------------------------------- *)
+(* Elements.Elements: (Name, Type, Iter) in order *)
+Fixpoint obj_parse_loop (k : nat) (pj : pjson) (ob : cont) (acc : list (bytes * N * iter))
+  : outcome (list (bytes * N * iter)) :=
+  match k with
+  | O => OutOfFuel
+  | S k' =>
+    do r <- next_element (cont_fuel ob) pj ob;
+    match r with
+    | (_, None) => Ok (rev acc)
+    | (ob', Some (name, el, ty)) => obj_parse_loop k' pj ob' ((name, ty, el) :: acc)
+    end
+  end.
+Definition obj_parse (pj : pjson) (o : cont) : outcome (list (bytes * N * iter)) :=
+  obj_parse_loop (cont_fuel o) pj o [].
